@@ -8,6 +8,7 @@ import UcantoModel.Model.Did
 import UcantoModel.Model.Cost
 import UcantoModel.Model.UcanJson
 import UcantoModel.Model.Message
+import UcantoModel.Model.CborJson
 /-!
 # Line-protocol driver
 stdin: one case per line, TAB separated: `op  arg1  arg2 …`
@@ -111,7 +112,8 @@ def doServe (mode world impl : String) : String :=
       if mode == "C09" then s!"{inv.tok.id}:{WorldJson.outStr r.out}"
       else s!"{inv.tok.id}:{WorldJson.outStr r.out}:{"&".intercalate (r.calls.map WorldJson.callStr)}"
     let model := ";".intercalate parts
-    let oracle := if model == impl then "ok" else "-"
+    let oracle := if model == impl then "ok" else if mode == "C08" || mode == "C09" then "-"
+      else s!"fail:through the server the outcome differs from the stateless model: expected {model}"
     s!"{model}\t{oracle}"
   | .error e => bad s!"world:{e}"
 
@@ -198,6 +200,27 @@ def doSigNew (code raw : String) : String :=
     let s := newSig c r
     s!"{Bytes.toHexTok s}|{sigCode s}|{sigSize s}|{Bytes.toHexTok (sigRaw s)}\t-"
   | _, _ => bad "signew"
+
+/-- `cbor`: bytes the DAG-CBOR model writes for the value, and whether its decoder reads them back -/
+def doCbor (v : String) : String :=
+  match Lean.Json.parse v >>= CborJson.parse with
+  | .error e => bad s!"cbor:{e}"
+  | .ok x =>
+    let c := Cbor.canon x
+    let enc := Cbor.encode c
+    let back := match Cbor.decodeTop enc with
+      | some y => Cbor.beq y c
+      | none => false
+    s!"{Bytes.toHex enc}|{if back then "T" else "F"}\t-"
+
+/-- `cborblock`: a block the library wrote, read by the model's decoder and written again -/
+def doCborBlock (h : String) : String :=
+  match Bytes.ofHex h with
+  | none => bad "hex"
+  | some b =>
+    match Cbor.decodeTop b with
+    | none => "undecodable\t-"
+    | some v => s!"{Bytes.toHex (Cbor.encodeCanon v)}\t-"
 
 /-- `cost`: number of signature verifications. The property is an upper bound, so fewer
 verifications than the model's un-memoised search is agreement; more is not. -/
@@ -334,6 +357,8 @@ def handle (line : String) : String :=
                 s!"verified=T|same=T|altered={if alter == "none" then "T" else "F"}"
      | .error e => s!"bad-op:{e}") ++ "\t-"
   | ["cost", world, impl] => doCost world impl
+  | ["cbor", v, _] => doCbor v
+  | ["cborblock", h, _, _] => doCborBlock h
   | ["bsconc", _, _, _, _, _, impl] => (if impl.startsWith "consistent:" then impl else "consistent") ++ "\t-"
   | ["req", _, impl] => (if impl.startsWith "status:" || impl == "error" || impl.startsWith "skip:" then impl else "status-or-error") ++ "\t-"
   | ["reqmut", _, _, _, impl] => (if impl.startsWith "status:" || impl == "error" || impl.startsWith "skip:" then impl else "status-or-error") ++ "\t-"
@@ -341,6 +366,7 @@ def handle (line : String) : String :=
   | ["resp", _, _, _, impl] => (if impl == "response" || impl == "error" then impl else "response-or-error") ++ "\t-"
   | ["batch", mode, world, _, _, _, impl] => doServe mode world impl
   | ["serve", mode, world, impl] => doServe mode world impl
+  | ["serve3seq", mode, world, impl] => doServe mode world impl
   | ["access3", mode, world, spine, checker, _, impl] => doAccess mode world spine checker impl
   | ["access3seq", mode, world, spine, checker, _, impl] => doAccess mode world spine checker impl
   | ["c16x", n, p, _] =>
